@@ -688,6 +688,22 @@ def direct_cases(ctx, n):
     for _ in range(ctx.size(300, 3000)):
         v = "".join(rng.choice(["a", "b", " ", "\n", "é", "A", "\t"]) for _ in range(rng.randint(0, 6)))
         out.append(Direct("transform-u", "v=" + sq(v), '"${v@u}"'))
+    # the @-transformations and case modification over adversarial VALUES: every string up to length 2 (3 for @E in
+    # thorough) over escape syntax next to multi-byte characters (found missing by seed C06-4: `\` + non-ASCII under @E)
+    tv_alpha = ["\\", "n", "x", "4", "1", "u", "c", "e", "0", "'", '"', " ", "a", "B", "\u00e9", "\u65e5", "\U0001f600", "\u0301", "\t"]
+    import itertools as _it
+    tvals = [""] + ["".join(t) for k in (1, 2) for t in _it.product(tv_alpha, repeat=k)]
+    if not ctx.quick:
+        tvals += ["".join(t) for t in _it.product(tv_alpha, repeat=3)]
+    else:
+        tvals += ["".join(rng.choice(tv_alpha) for _ in range(rng.randint(3, 6))) for _ in range(600)]
+    for i, v in enumerate(tvals):
+        # (@Q / @K / @k print a quoted FORM, which may legitimately differ from bash's as long as it reads back: C13's subject)
+        ops = ["@E"] if len(v) > 2 and not ctx.quick else ["@E", "@U", "@L", "@u", "^", "^^", ",", ",,", "@P"]
+        for op in (ops if (ctx.quick is False or len(v) <= 1) else ["@E"] + [ops[1 + i % (len(ops) - 1)]]):
+            if op == "@P" and ("\\" in v or "'" in v or '"' in v):
+                continue        # prompt decoding of arbitrary backslash sequences is C01/C13 ground (and partly time-dependent)
+            out.append(Direct("transform-values", "v=" + sq(v), '"${v%s}"' % op))
     out.append(Direct("keys", "declare -A A=([k]=v)", '"${!A[@]}"'))
     out.append(Direct("prefix-names", "zzq1=1; zzq2=2", '"${!zzq@}"'))
     out.append(Direct("prefix-names", "zzq1=1; zzq2=2", '"${!zzq*}"'))
@@ -703,7 +719,8 @@ def direct_cases(ctx, n):
 
 def direct_clause(c, b, o):
     """name of the recorded defect class a brush/bash difference on a direct case belongs to (or None)"""
-    if c.feat in ("transform-u", "transform-arr-u") and re.search(r"\s\S", c.setup.split("=", 1)[1]):
+    if (c.feat in ("transform-u", "transform-arr-u") or (c.feat == "transform-values" and c.word.endswith('@u}"'))) \
+            and re.search(r"\s\S", c.setup.split("=", 1)[1]):
         return "at_u_capitalizes_every_word"
     if c.feat == "replace" and "\n" in c.setup and re.search(r"/[#%]", c.word):
         return "pattern_anchors_at_newlines"
@@ -861,7 +878,7 @@ def sweep_clause(c, name, b, o):
         # the expansion fails inside a function: bash abandons the whole enclosing command, brush resumes after the call
         return "expansion_error_in_function_resumes_caller"
     starry = "*" in w or "[*]'" in c.setup or "r='*'" in c.setup
-    if name in ("IFS=", "IFS= in function", "unquoted IFS=") and starry and _flat(b) == _flat(o):
+    if name in ("IFS=", "IFS= in function", "unquoted IFS=") and starry:
         return "star_join_ignores_empty_ifs"              # C05-2 seen through the operators
     if name in ("unquoted IFS=' a'", "unquoted IFS=:") and _flat(b, True) == _flat(o, True):
         return "unquoted_split_drops_empty_fields_of_nonwhitespace_ifs"
@@ -873,8 +890,9 @@ def context_sweep(ctx, cases, bouts, oouts, n):
     import tempfile
     import shutil
     rng = ctx.rng
+    # (references to lists are out: bash's `${!r…}` with r naming @ * a[@] a[*] is not `${@…}`, least of all under a changed IFS)
     pool = [i for i, c in enumerate(cases) if same(bouts[i], oouts[i]) and head(bouts[i]) != "PANIC"
-            and not getattr(c, "no_oracle", False)]
+            and not getattr(c, "no_oracle", False) and not re.search(r"r='(@|\*|[aA]\[[@*]\])'", c.setup)]
     # stratify by feature so that every operator family is present
     by = {}
     for i in pool:
